@@ -177,15 +177,21 @@ func headerValues() []*string {
 	return out
 }
 
-// queries: q x ids x action x extras, with names taken from the resource the path is about
-func queries(n *nodeSpec) [][][2]string {
+// queries: q x ids x action, with names taken from the resource the path is about. The core space
+// has every reserved parameter absent or present with a plain value; the add-ons put an empty value,
+// a malformed value, an undecodable parameter, a duplicate or an unrelated parameter on top.
+type querySpec struct {
+	kv   [][2]string
+	core bool
+}
+
+func queries(n *nodeSpec) []querySpec {
 	qs := []*string{nil}
 	add := func(list *[]*string, v string) { *list = append(*list, &v) }
 	if n != nil && len(n.finders) > 0 {
 		add(&qs, n.finders[0])
 	}
 	add(&qs, "nope")
-	add(&qs, "")
 	as := []*string{nil}
 	if n != nil {
 		seen := map[bool]bool{}
@@ -197,13 +203,31 @@ func queries(n *nodeSpec) [][][2]string {
 		}
 	}
 	add(&as, "nope")
-	add(&as, "")
-	extras := [][][2]string{nil, {{"foo", ")"}}, {{"bad", "1"}}, {{"q", "nope"}}, {{"count", "10"}}}
-	var out [][][2]string
+	empty := ""
+	type addOn struct {
+		q, a  *string
+		extra [][2]string
+	}
+	addOns := []addOn{{}, {q: &empty}, {a: &empty}, {extra: [][2]string{{"foo", ")"}}}, {extra: [][2]string{{"bad", "1"}}},
+		{extra: [][2]string{{"q", "nope"}}}, {extra: [][2]string{{"count", "10"}}}}
+	var out []querySpec
 	for _, q := range qs {
 		for _, ids := range []bool{false, true} {
 			for _, a := range as {
-				for _, ex := range extras {
+				for i, ao := range addOns {
+					q, a := q, a
+					if ao.q != nil {
+						if q != nil {
+							continue
+						}
+						q = ao.q
+					}
+					if ao.a != nil {
+						if a != nil {
+							continue
+						}
+						a = ao.a
+					}
 					var kv [][2]string
 					if q != nil {
 						kv = append(kv, [2]string{"q", *q})
@@ -214,8 +238,8 @@ func queries(n *nodeSpec) [][][2]string {
 					if a != nil {
 						kv = append(kv, [2]string{"action", *a})
 					}
-					kv = append(kv, ex...)
-					out = append(out, kv)
+					kv = append(kv, ao.extra...)
+					out = append(out, querySpec{kv, i == 0})
 				}
 			}
 		}
@@ -227,8 +251,8 @@ var filterConfigs = func() [][]filterSpec {
 	p, c, fp, fe, fo := filterSpec{kind: "pass"}, filterSpec{kind: "ctx"}, filterSpec{kind: "failpre"}, filterSpec{"failer", 403}, filterSpec{kind: "failpost"}
 	return [][]filterSpec{
 		nil, {p}, {c}, {fp}, {fe}, {fo},
-		{p, c}, {c, p}, {c, c}, {p, fp}, {fp, p}, {c, fo}, {fo, c}, {fe, c},
-		{p, c, p}, {c, fp, p}, {c, c, fo}, {fo, p, c}, {p, fe, c}, {c, p, c},
+		{p, c}, {c, p}, {c, c}, {p, p}, {p, fp}, {fp, p}, {c, fo}, {fo, c}, {fe, c},
+		{p, c, p}, {c, p, c}, {c, c, p}, {p, p, c}, {c, fp, p}, {c, c, fo}, {fo, p, c}, {p, fe, c},
 	}
 }()
 
@@ -250,8 +274,34 @@ var allFilterConfigs = func() [][]filterSpec {
 	return out
 }()
 
-// enumerate walks the whole request space of one tree; the quick tier keeps a seeded sample of it.
-func enumerate(cfg Config, t treeDef, ti int, run func(kase)) {
+// keepRate: per mille of the enumerated requests of one class that a tier runs. The thorough tier
+// runs the whole core space of the fixed trees and a sample of everything else.
+func keepRate(thorough, fixedTree, core bool, exp expectation) uint32 {
+	class := 0 // unspecified
+	switch {
+	case exp.specified && exp.routed:
+		class = 3
+	case exp.specified && exp.reason != "unknown-resource":
+		class = 2
+	case exp.specified:
+		class = 1
+	}
+	if thorough {
+		if fixedTree && core {
+			return 1000
+		}
+		return [4]uint32{40, 40, 150, 400}[class]
+	}
+	if fixedTree && core {
+		return [4]uint32{40, 40, 300, 1000}[class]
+	}
+	return [4]uint32{10, 10, 40, 150}[class]
+}
+
+// enumerate walks the whole request space of one tree; what is kept of it is decided per class
+// (keepRate) by a seeded hash, everything else about a kept request (body, filters, mount, failing
+// implementation, tunnelling, late registration) by another.
+func enumerate(cfg Config, t treeDef, fixedTree bool, run func(kase)) {
 	regs := regsOf(t.roots, nil)
 	var early, late []reg
 	for i, r := range regs {
@@ -264,41 +314,48 @@ func enumerate(cfg Config, t treeDef, ti int, run func(kase)) {
 	api := "/api"
 	slash := "/"
 	thorough := cfg.Tier == "thorough"
-	// sampling rates per mille
-	coreRate, otherRate := uint32(90), uint32(25)
-	if thorough {
-		coreRate, otherRate = 1000, 1000
-	}
 	fcs := filterConfigs
 	if thorough {
 		fcs = allFilterConfigs
 	}
+	tree := treeOfRegs(regs)
+	earlyTree := treeOfRegs(early)
 	idx := 0
 	for _, ps := range pathShapes(t.roots) {
 		qs := queries(ps.node)
 		for _, verb := range verbs {
 			for _, hdr := range headerValues() {
-				for qi, q := range qs {
+				for _, q := range qs {
 					idx++
-					h := hash(cfg.Seed, t.name, fmt.Sprint(idx))
-					core := qi%5 == 0 && (hdr == nil || isProtocolMethod(*hdr))
-					rate := otherRate
-					if core {
-						rate = coreRate
+					r := &reqSpec{verb: verb, hdr: hdr, wire: ps.segs, spec: ps.segs, query: q.kv}
+					h2 := hash(cfg.Seed+1, t.name, fmt.Sprint(idx))
+					srv := &srvSpec{regs: regs}
+					judged := tree
+					if (h2>>24)%16 == 0 && len(late) > 0 {
+						srv.regs, srv.late = early, late
+						judged = earlyTree
 					}
-					if h%1000 >= rate {
+					h := hash(cfg.Seed, t.name, fmt.Sprint(idx))
+					exp := decide(judged, r)
+					if h%1000 >= keepRate(thorough, fixedTree, q.core, exp) {
 						continue
 					}
-					h2 := hash(cfg.Seed+1, t.name, fmt.Sprint(idx))
-					r := &reqSpec{verb: verb, hdr: hdr, wire: ps.segs, spec: ps.segs, query: q}
 					if h2%2 == 1 {
 						r.body = 1 + int(h2>>1)%3
 					}
+					if exp.routed && (h2>>8)%4 != 0 { // mostly the body the expected method takes
+						for b := 0; b < nBodies; b++ {
+							if contains(bodyAccepted[(b+int(h2>>1))%nBodies], exp.f.method) {
+								r.body = (b + int(h2>>1)) % nBodies
+								break
+							}
+						}
+					}
 					r.implFail = (h2>>12)%8 == 0
 					r.tunnel = r.body == bodyNone && (h2>>16)%8 == 0
-					srv := &srvSpec{filters: fcs[int(h2>>4)%len(fcs)], regs: regs}
+					srv.filters = fcs[int(h2>>4)%len(fcs)]
 					mount := "bare"
-					switch (h2 >> 20) % 10 {
+					switch (h2 >> 20) % 12 {
 					case 0:
 						mount = "mux"
 					case 1: // prefixed server, request under the prefix
@@ -309,9 +366,6 @@ func enumerate(cfg Config, t treeDef, ti int, run func(kase)) {
 						r.spec = nil
 					case 3:
 						srv.prefix = &slash
-					}
-					if (h2>>24)%16 == 0 && len(late) > 0 {
-						srv.regs, srv.late = early, late
 					}
 					run(kase{srv: srv, mount: mount, req: r})
 				}
